@@ -116,7 +116,7 @@ def to_coq(c):
     if o.get("crash") or o.get("outhex"):
         return None
     op = c["op"]
-    if op in ("file", "gort", "runes", "reuse", "targets", "lexfn"):
+    if op in ("file", "gort", "runes", "reuse", "targets", "lexfn", "hold"):
         return "CUtf8 [] []"      # compared by the oracle only
     if op in ("rstream", "rseries") and c.get("rmode") in (6, 7):
         return "CUtf8 [] []"      # a failing reader: oracle only (usage_oracle)
@@ -490,6 +490,31 @@ def usage_oracle(c):
     if op == "raw" and o.get("note"):
         return "spelling", "the raw tokens do not spell the input: %s" % o["note"]
     return None
+
+
+def hold_oracle(ck, cases, k):
+    """op hold: results kept since the previous hold case were looked at again
+    after the cases in between ran.  A result that changed is reported with
+    the batch of cases as replay."""
+    c = cases[k]
+    o = c["obs"]
+    un = o.get("unstable") or []
+    if not un:
+        return False
+    first = un[0]
+    lo = first["i"]
+    by_i = {x.get("i"): x for x in cases[max(0, k - 40):k + 1]}
+    batch = [slim(by_i[j]) for j in range(lo, c.get("i", k)) if j in by_i and by_i[j]["op"] != "hold"]
+    for b in batch:
+        b.pop("obs", None)
+    ck.violation("impl:result-overwritten:%s" % first["op"],
+                 "%s by case %d (%s %s) changed while the %d following cases ran: returned %s, now %s "
+                 "(%d of %d results held over this batch changed)" % (
+                     first["what"], first["i"], first["op"], first["src"], len(batch) - 1,
+                     first["before"], first["after"], o.get("fin", 0), o.get("n", 0)),
+                 {"batch": batch, "changed": un, "expected": "a result stays what was returned until its owner changes it",
+                  "observed": o})
+    return True
 
 
 def file_oracle(c):
